@@ -204,6 +204,15 @@ def step (st : DState) (line : String) : DState × String :=
         | some (.error e) => showErr e
         | none => "outside"
       | none => "bad-op")
+  | "tuni" :: cid :: ws =>
+    -- PDFCIDFont.to_unichr(cid) of a font whose ToUnicode stream holds these tokens
+    (st, match cid.toNat?, ws.mapM parseTok with
+      | some cid, some toks => match parseToUnicode toks with
+        | .ok m => (match toUnichr m cid with
+          | some u => "U " ++ (if u.isEmpty then "-" else ".".intercalate (u.map (fun c => String.ofList (Nat.toDigits 16 c))))
+          | none => "U undefined")
+        | .error e => showErr e
+      | _, _ => "bad-op")
   | "tu" :: ws =>
     (st, match ws.mapM parseTok with
       | some toks => match parseToUnicode toks with
